@@ -381,3 +381,24 @@ MUTANTS += [
     M('2d-divisible-int', 'C16', PCHKGEN, '	float		d,l;		// code dimensions for 2D pchk matrix', '	UINT32		d,l;		// code dimensions for 2D pchk matrix', 'R-2D-DIVISIBLE'),
     M('benign-2d-divisible-double', 'C16', PCHKGEN, '	float		d,l;		// code dimensions for 2D pchk matrix', '	double		d,l;		// code dimensions for 2D pchk matrix', expect=0),
 ]
+
+MUTANTS += [
+    # ---- R-IDX-GUARD, bound taken from another object
+    M('idx-foreign-bound', 'C17', SPARSE, '	of_mod2sparse_clear (r);\n\n	for (i = 0; i < of_mod2sparse_rows (m); i++)\n	{\n		e = of_mod2sparse_first_in_row (m, i);\n\n		while (!of_mod2sparse_at_end (e))\n		{\n			f = of_mod2sparse_insert (r, e->row, e->col);',
+      '	of_mod2sparse_clear (r);\n\n	for (i = 0; i < of_mod2sparse_rows (r); i++)\n	{\n		e = of_mod2sparse_first_in_row (m, i);\n\n		while (!of_mod2sparse_at_end (e))\n		{\n			f = of_mod2sparse_insert (r, e->row, e->col);', 'R-IDX-GUARD'),
+    dict(name='benign-idx-foreign-equal-dims', props=['C17'], rule=None, expect=0, edits=[
+        dict(file=SPARSE, old='	if (of_mod2sparse_rows (m) > of_mod2sparse_rows (r)\n			|| of_mod2sparse_cols (m) > of_mod2sparse_cols (r))\n	{\n		OF_PRINT_ERROR(("Destination matrix is too small"));',
+             new='	if (of_mod2sparse_rows (m) != of_mod2sparse_rows (r)\n			|| of_mod2sparse_cols (m) > of_mod2sparse_cols (r))\n	{\n		OF_PRINT_ERROR(("Destination matrix is too small"));', count=1),
+        dict(file=SPARSE, old='	of_mod2sparse_clear (r);\n\n	for (i = 0; i < of_mod2sparse_rows (m); i++)\n	{\n		e = of_mod2sparse_first_in_row (m, i);\n\n		while (!of_mod2sparse_at_end (e))\n		{\n			f = of_mod2sparse_insert (r, e->row, e->col);',
+             new='	of_mod2sparse_clear (r);\n\n	for (i = 0; i < of_mod2sparse_rows (r); i++)\n	{\n		e = of_mod2sparse_first_in_row (m, i);\n\n		while (!of_mod2sparse_at_end (e))\n		{\n			f = of_mod2sparse_insert (r, e->row, e->col);', count=1)]),
+]
+
+MUTANTS += [
+    # ---- R-SYMTAB-WRITERS, R-IT-REGISTER, R-COPY-SCALE (round-4 seeds C04) and the precision fixes they prompted
+    M('symtab-direct-null-symbol', ['C04', 'C01', 'C03'], LDPCAPI, '			if (of_ldpc_staircase_decode_with_new_symbol (ofcb, null_symbol, ofcb->nb_total_symbols - 1)\n													!= OF_STATUS_OK)\n			{\n				OF_PRINT_ERROR(("%s: ERROR: of_ldpc_staircase_decode_with_new_symbol() failed\\n", __FUNCTION__))\n				goto error;\n			}\n			/* the decoder keeps its own copy of a repair symbol, so free ours. */\n			of_free (null_symbol);\n',
+      '			ofcb->encoding_symbols_tab[ofcb->nb_total_symbols - 1] = null_symbol;\n			ofcb->nb_repair_symbol_ready++;\n', 'R-SYMTAB-WRITERS'),
+    dict(name='it-register-late', props=['C04', 'C01'], rule='R-IT-REGISTER', expect=1, edits=[dict(patch='seeded/C04-r4-2/patch.diff')]),
+    dict(name='it-register-late-not-c10', props=['C10', 'C11'], rule=None, expect=0, edits=[dict(patch='seeded/C04-r4-2/patch.diff')]),
+    dict(name='copy-scale-count-for-bytes', props=['C04', 'C01'], rule='R-COPY-SCALE', expect=1, edits=[dict(patch='seeded/C04-r4-3/patch.diff')]),
+    dict(name='copy-scale-not-setavail', props=['C03', 'C10', 'C11', 'C16'], rule=None, expect=0, edits=[dict(patch='seeded/C04-r4-3/patch.diff')]),
+]
